@@ -33,6 +33,9 @@ string_re = re.compile(
 # ``encode("ascii", "backslashreplace")`` turns that character into an escape sequence
 # of its own, otherwise the two would pair up into an escaped backslash
 _backslash_non_ascii_re = re.compile(r"(?<!\\)((?:\\\\)*)\\(?=[^\x00-\x7f])")
+# a backslash-newline pair (line continuation) that is not itself escaped: it is removed
+# before the line breaks of the literal are replaced by the configured newline sequence
+_line_continuation_re = re.compile(r"(?<!\\)((?:\\\\)*)\\\n")
 integer_re = re.compile(
     r"""
     (
@@ -654,7 +657,10 @@ class Lexer:
                 try:
                     value = (
                         _backslash_non_ascii_re.sub(
-                            r"\1\\\\", self._normalize_newlines(value_str[1:-1])
+                            r"\1\\\\",
+                            self._normalize_newlines(
+                                _line_continuation_re.sub(r"\1", value_str[1:-1])
+                            ),
                         )
                         .encode("ascii", "backslashreplace")
                         .decode("unicode-escape")
